@@ -211,6 +211,10 @@ func c11units(tier string) []mc.Unit {
 		{"Reverse(ACGTN)", func() any { return transform.Reverse("ACGTN") }, showSprint},
 		{"AllVariantsIUPAC(ANT)", func() any { v, _ := variants.AllVariantsIUPAC("ANT"); return v }, showSprint},
 		{"AllVariantsIUPAC(RYK)", func() any { v, _ := variants.AllVariantsIUPAC("RYK"); return v }, showSprint},
+		{"AllVariantsIUPAC(ACU) (rejected)", func() any { v, err := variants.AllVariantsIUPAC("ACU"); return fmt.Sprint(len(v), err != nil) }, showSprint},
+		{"AllVariantsIUPAC(NNXA) (rejected)", func() any { v, err := variants.AllVariantsIUPAC("NNXA"); return fmt.Sprint(len(v), err != nil) }, showSprint},
+		{"AllVariantsIUPAC(GN)", func() any { v, _ := variants.AllVariantsIUPAC("GN"); return v }, showSprint},
+		{"ReverseComplement(A-C) (outside the alphabet)", func() any { return len(transform.ReverseComplement("A-C")) }, showSprint},
 		{"IsPalindromic(GAATTC)", func() any { return checks.IsPalindromic("GAATTC") }, showSprint},
 		{"IsPalindromic(GCWGC)", func() any { return checks.IsPalindromic("GCWGC") }, showSprint},
 	}, 3))
